@@ -89,6 +89,8 @@ TEMPLATES: dict[str, str] = {
               "{% for i in xs %}{% call greet i %}{% endfor %}",
     "babel": "{{ 1.1 | decimal }}|{{ 1234.5 | currency }}|{{ 2.5 | money }}|{{ 3.25 | unit: 'length-meter' }}|{{ 7 | decimal }}"
              "|{{ 1234567890123456 | plus: 0.5 }}|{{ 3.141592653589793 | times: 2 }}|{{ xs | sum }}|{{ 1700000000 | datetime }}",
+    "striphtml": "{{ v | strip_html }}|{{ 'Have <em>you</em> read <b>it</b>?' | strip_html }}|{{ 'nice post <script>track(' | strip_html }}"
+                 "|{{ 'a <style>p{' | strip_html }}|{{ '</script> after' | strip_html }}|{{ 'x <b>y</b> z' | strip_html }}",
     "macrorender": "{% macro card t %}<{% render 'rp', x: t %}>{% endmacro %}{% call card v %}{% call card 'z' %}",
     "renderblock": "{% render 'blocky', v: v %}|{% render 'child2', v: v %}",
     "blocky": "{% block b %}[{{ v }}]{% endblock %}",
@@ -107,7 +109,7 @@ TEMPLATES: dict[str, str] = {
     "undefined": "{{ nosuch }}{{ v | default: 'd' }}{% if nosuch %}t{% else %}f{% endif %}{{ nosuch.deeper | size }}",
     "ifchanged": "{% for i in xs %}{% if forloop.first %}F{% endif %}{{ forloop.index }}{% endfor %}{% liquid\nassign z = v\necho z %}",
 }
-ROOTS = ["counters", "cycle", "offset", "capture", "macro", "macro2", "macro3", "macrorender", "renderblock", "babel", "child", "child2", "now", "translate",
+ROOTS = ["counters", "cycle", "offset", "capture", "macro", "macro2", "macro3", "macrorender", "renderblock", "babel", "striphtml", "child", "child2", "now", "translate",
          "include", "render", "custom", "drop", "with", "undefined", "ifchanged"]
 
 
